@@ -290,3 +290,21 @@ Example C10_ex_refusals :
   get_theta Z Z {| h_declared := 1; h_thetas := [(1, 0)] |} 0 = Ok (1, 0) /\
   save Z Z (empty_holder Z Z 3) = Err 4.
 Proof. vm_compute. repeat split; reflexivity. Qed.
+
+(* ---- the command-line wrapper evaluate_model.main is what the source says NOW ----
+   `src_cli_evaluate_model` is the whole function main of /repo's current batchie/cli/evaluate_model.py, re-translated on every run
+   (configuration CLI_EVALUATE_MODEL -> Generated/SrcCli.v).  Cli.chain_ids_of: file i of --thetas, in ARGUMENT order, contributes its
+   declared size (n_thetas) many copies of i; the holders are concatenated in the same order.
+   Model/Cli.v: the parsed arguments are a record of the plain argparse results (get_args() is not translated), `L` is a
+   record of the library functions the wrapper calls over abstract types (each component stands for the library function
+   of that name with its parameter list; `*_load_*` = what loading the file at a path yields), a main() denotes the list
+   of (path, content) files it writes, Err = the exception that ends it.  The links hold for EVERY such record. *)
+From Batchie Require Lib.PyRt Model.Cli Generated.SrcCli Proofs.C10SourceCli.
+Theorem C10_model_is_source_cli_evaluate_model : forall (Scr Th Pr PrT Ob Nm Ev : Type) (L : Cli.ev_lib Scr Th Pr PrT Ob Nm Ev) (a : Cli.ev_args),
+  SrcCli.src_cli_evaluate_model Scr Th Pr PrT Ob Nm Ev L a
+  = Cli.cli_evaluate_model L a.
+Proof. exact C10SourceCli.src_cli_evaluate_model_is_model. Qed.
+Print Assumptions C10_model_is_source_cli_evaluate_model.
+
+Example C10_example_cli_chain_ids : Cli.chain_ids_of (fun n : Z => n) [2; 0; 3]%Z = [0; 0; 2; 2; 2]%Z.
+Proof. vm_compute. reflexivity. Qed.
